@@ -99,10 +99,35 @@ pub struct ViolationReport {
    pub signature: String,
    pub shrunk: bool,
    pub entries: Vec<String>,
+   /// everything needed to rebuild the programs of this case without the generator
+   pub members: Vec<serde_json::Value>,
+}
+
+#[derive(Serialize, Clone, Debug)]
+pub struct KnownOutcome {
+   pub id: String,
+   pub failed: bool,
+   pub signature: Option<String>,
+   pub failures: Vec<Failure>,
+}
+
+pub fn members_json(group: &Group) -> Vec<serde_json::Value> {
+   group
+      .members
+      .iter()
+      .map(|m| {
+         serde_json::json!({
+            "ast": serde_json::from_str::<serde_json::Value>(m.entry.ast).unwrap(),
+            "opts": serde_json::from_str::<serde_json::Value>(m.entry.opts).unwrap(),
+            "meta": serde_json::to_value(&m.meta).unwrap(),
+         })
+      })
+      .collect()
 }
 
 #[derive(Default, Serialize, Clone, Debug)]
 pub struct BatchResult {
+   pub known: Vec<KnownOutcome>,
    pub programs: usize,
    pub groups: usize,
    pub evaluations: u64,
@@ -408,6 +433,16 @@ fn signature(prop: &str, failures: &[Failure]) -> String {
    }
 }
 
+/// exact signature of a fixed case: variant, kind and every mismatching row (known findings are keyed on it)
+pub fn detail_signature(prop: &str, failures: &[Failure]) -> String {
+   let f = &failures[0];
+   let mut s = signature(prop, failures);
+   for m in &f.mismatches {
+      s.push_str(&format!("|{}:{:?}:{}", m.rel, m.kind, m.rows.join("")));
+   }
+   s
+}
+
 impl Failure {
    fn variant_class(&self) -> String { self.variant.split(':').next().unwrap_or("").to_string() }
 }
@@ -460,6 +495,30 @@ pub fn run_main(entries: Vec<Entry>) -> ! {
 fn run_group(
    args: &Args, group: &Group, plan: &ParPlan, result: &Mutex<BatchResult>, nontrivial_set: &Mutex<BTreeSet<u64>>,
 ) {
+   if let Some(m) = group.members.iter().find(|m| m.meta.fixed_input.is_some()) {
+      // committed replay of a known finding: one fixed case, reported separately
+      let input = m.meta.fixed_input.clone().unwrap();
+      let id = m.meta.finding_id.clone().unwrap_or_default();
+      let reps = if group.members.iter().any(|m| m.meta.kind.is_par()) { 30 } else { 1 };
+      let mut out = KnownOutcome { id, failed: false, signature: None, failures: vec![] };
+      for i in 0..reps {
+         match run_case(group, &input, plan, args.seed ^ i) {
+            CaseOutcome::Done { failures, .. } if !failures.is_empty() => {
+               out.failed = true;
+               out.signature = Some(detail_signature(&args.prop, &failures));
+               out.failures = failures;
+               break;
+            },
+            CaseOutcome::RefError(e) => {
+               result.lock().unwrap().infra_errors.push(format!("known finding {}: reference error {e}", out.id));
+               break;
+            },
+            _ => {},
+         }
+      }
+      result.lock().unwrap().known.push(out);
+      return;
+   }
    let strat = inputs::strategy(&group.ref_prog);
    let gseed = args.seed.wrapping_mul(0x9E37_79B9_7F4A_7C15) ^ hash64(&group.base);
    let mut runner = TestRunner::new(Config {
@@ -559,6 +618,7 @@ fn run_group(
          failures,
          shrunk,
          entries: group.members.iter().map(|m| m.entry.name.to_string()).collect(),
+         members: members_json(group),
       };
       result.lock().unwrap().violations.push(rep);
    } else if let Err(TestError::Abort(reason)) = run {
@@ -618,7 +678,7 @@ fn replay(args: &Args, groups: &[Group], plan: &ParPlan, path: &str) -> i32 {
    let out = serde_json::json!({
       "replayed": reps, "failed": fails,
       "failures": first,
-      "signature": first.as_ref().map(|f| signature(&args.prop, f)),
+      "signature": first.as_ref().map(|f| detail_signature(&args.prop, f)),
    });
    std::fs::write(&args.out, serde_json::to_string_pretty(&out).unwrap()).ok();
    if fails > 0 { 1 } else { 0 }
